@@ -114,6 +114,10 @@ class BX:
     def scopes(self, prop, tier):
         out = []
         for s in self.SCOPES[tier]:
+            # the 4 525-set U(2,4) scope exercises the Re-Pair comparison routines (locate/extract/prefix oracles); the
+            # observation-vector properties take it in the thorough tier only
+            if tier == 'quick' and 'L=4' in s and prop not in ('C01', 'C02', 'C03', 'C04'):
+                continue
             if prop in self.KINDS:
                 want = self.KINDS[prop].split('+')
                 m = re.search(r',kinds=([A-Za-z+]+)', s)
@@ -177,8 +181,10 @@ class BX:
         binaries = {}
         for flav in flavours:
             binaries[flav] = vlib.build_tool(flav, 'bx')
-        for scope in self.scopes(prop, tier):
+        for si, scope in enumerate(self.scopes(prop, tier)):
             for flav in flavours:
+                if tier == 'quick' and flav != flavours[0] and si not in (0, 2):
+                    continue      # quick tier: the small-MEMALLOC flavour on the two exhaustive subset scopes only
                 left = deadline - (time.time() - t0)
                 if left < 5:
                     cov['exhaustive'] = False
